@@ -493,6 +493,30 @@ static std::string step(const Toks& t)
 		}
 		return "ok";
 	}
+	if (op == "fmap" && t.size() == 2)
+	{
+		// the static file mapping: one GET for the given target on the server rooted at <tmp>/root;
+		// status and Content-Length of the answer (model: localRel + the fixture tree), plus the leak trap
+		if (!g_files) setupFiles();
+		Conn p("GET " + unhex(t[1]) + " HTTP/1.1\r\n\r\n");
+		if (!p.ok) return "stream-too-big";
+		std::string out;
+		{
+			Socket c(new Socket_(p.srv));
+			((SocketServer*)g_files)->serve(c);
+			p.drain();
+			c.close();
+			out = p.finish();
+		}
+		if (out.find(g_secret) != std::string::npos) return "leak: response contains a file from outside the root";
+		if (out.compare(0, 7, "HTTP/1.") != 0) return "status=none";
+		int code = atoi(out.c_str() + 9);
+		long long len = -1;
+		size_t he = out.find("\r\n\r\n");
+		size_t cl = out.find("\r\nContent-Length: ");
+		if (cl != std::string::npos && he != std::string::npos && cl < he) len = atoll(out.c_str() + cl + 18);
+		return "status=" + str(code) + " len=" + str(len);
+	}
 	if (op == "url" && t.size() == 2)
 	{
 		Exact d(unhex(t[1]));
